@@ -117,7 +117,8 @@ Inductive pkt :=
 | PVN (verdict : Z) (idle : Z)            (* Version Negotiation packet; verdict about the version lists:
                                              0 lists our version (ignored), 1 no common version, else common version *)
 | PRetry (valid : bool) (idle : Z)        (* Retry packet; valid = first retry, CID and integrity tag ok *)
-| PReserved                               (* reserved header bits set: close(PROTOCOL_VIOLATION); return *)
+| PReserved                               (* decrypted, reserved header bits set: close(PROTOCOL_VIOLATION); return
+                                             (with or without a qlog packet_received record) *)
 | PProc (nev : Z) (peer_close : option Z) (err : bool) (idle : Z).
    (* decrypted and handed to _payload_received: nev events queued, a CONNECTION_CLOSE frame was
       handled (pto3 at that moment), a QuicConnectionError was raised (-> close()), and the value
@@ -159,7 +160,7 @@ Fixpoint recv_pkts (now : Z) (c : conn) (ps : list pkt) : conn :=
     | PVN verdict idle => vn_pkt now verdict idle c
     | PRetry valid idle =>
         if c_client c && valid then connect_internal now idle c else c
-    | PReserved => do_close EV_ERROR c
+    | PReserved => do_close EV_ERROR (srv_init c)
     | PProc nev pc err idle =>
         let c1 := proc_pkt now nev pc err c in
         (* `if self._state in END_STATES or self._close_pending: return`, else re-arm the idle timer *)
